@@ -529,6 +529,50 @@ def check_iface_loop(ctx, cls, slot, module='simulator', prop_vec='self.c_propen
 IFACE_SLOTS_VALUES = set(v[0] for v in IFACE_SLOTS.values())
 
 
+def check_lineage_loops(ctx):
+    """LineageCSimInterface / SafeLineageCSimInterface.compute_lineage_propensities: reactions then lineage events."""
+    prog = ctx.prog
+    for cls in ('LineageCSimInterface', 'SafeLineageCSimInterface'):
+        dc, f = prog.resolve_method(cls, 'compute_lineage_propensities')
+        if f is None:
+            raise AnalysisError('anchor vanished: %s.compute_lineage_propensities' % cls)
+        ctx.functions.add('lineage:%s.compute_lineage_propensities' % dc)
+        where = ctx.loc('lineage', f)
+        a = [x.arg for x in f.args.args[1:]]
+        state, dest, vol, time = a
+        loops = [l for l in f.body if isinstance(l, ast.For)]
+        want = [('range(self.num_reactions)', 'self.c_propensities', '%s'), ('range(self.num_lineage_propensities)', 'self.c_lineage_propensities', 'self.num_reactions+%s')]
+        problems = []
+        if [src(l.iter).replace(' ', '') for l in loops] != [w[0] for w in want]:
+            problems.append('loops are %s, expected reactions then lineage events' % [src(l.iter) for l in loops])
+        else:
+            for lp, (_, vec, dpat) in zip(loops, want):
+                tv = src(lp.target)
+                calls = [c for c in ast.walk(lp) if isinstance(c, ast.Call) and isinstance(c.func, ast.Attribute) and c.func.attr in IFACE_SLOTS_VALUES]
+                ctx.call_sites += len(calls)
+                if len(calls) != 1 or calls[0].func.attr != 'get_stochastic_volume_propensity':
+                    problems.append('loop over %s calls %s' % (vec, [c.func.attr for c in calls]))
+                    continue
+                c = calls[0]
+                recv = src(util.strip_cast(c.func.value)).replace(' ', '')
+                if recv != '%s[0][%s]' % (vec, tv):
+                    problems.append('receiver %s, expected entry %s of %s' % (recv, tv, vec))
+                args = [src(x).replace(' ', '') for x in c.args]
+                if args not in ([state, 'self.c_param_values', vol, time], ['__addr__(%s[0])' % state, 'self.c_param_values', vol, time]):
+                    problems.append('arguments %s' % args)
+                st = c
+                while not isinstance(st, ast.stmt):
+                    st = st._parent
+                tgt = src(st.targets[0]).replace(' ', '') if isinstance(st, ast.Assign) else None
+                if tgt != '%s[%s]' % (dest, dpat % tv):
+                    problems.append('stored into %s, expected %s[%s]' % (tgt, dest, dpat % tv))
+                if any(isinstance(x, (ast.Break, ast.Return)) for x in ast.walk(lp)):
+                    problems.append('loop over %s can exit early' % vec)
+        ctx.ob('R1.4-iface-loop', 'lineage/%s/compute_lineage_propensities' % cls, not problems, where,
+               'every reaction r and every lineage event e: dest[r] / dest[num_reactions+e] = its stochastic volume propensity at (state, params, volume, time)',
+               '; '.join(problems))
+
+
 def check(ctx):
     prog = ctx.prog
     prog.mod('types'); prog.mod('types.pxd'); prog.mod('simulator'); prog.mod('simulator.pxd')
@@ -555,8 +599,8 @@ def check(ctx):
     for cls in ('ModelCSimInterface', 'SafeModelCSimInterface'):
         for slot in IFACE_SLOTS:
             check_iface_loop(ctx, cls, slot)
-    if ctx.tier == 'thorough':
-        prog.mod('lineage')
+    prog.mod('lineage'); prog.mod('lineage.pxd')
+    check_lineage_loops(ctx)
     ctx.floor('R1.1-formula', 30)
     ctx.floor('R1.2-binding', 20)
     ctx.floor('R1.3-dispatch', 10)
